@@ -79,8 +79,6 @@ func (u *ContactURN) Channel() *Channel { return u.channel }
 
 // SetChannel sets the channel associated with this URN
 func (u *ContactURN) SetChannel(channel *Channel) {
-	u.channel = channel
-
 	scheme, path, query, display := u.urn.ToParts()
 
 	parsedQuery, _ := url.ParseQuery(query)
@@ -91,7 +89,14 @@ func (u *ContactURN) SetChannel(channel *Channel) {
 		parsedQuery.Del("channel")
 	}
 
-	urn, _ := urns.NewFromParts(scheme, path, parsedQuery, display)
+	// rebuilding normalizes and validates the whole URN: a stored URN which doesn't survive that (e.g. it grows past the
+	// length limit when lower-cased) keeps its form and its affinity rather than being replaced by the empty URN
+	urn, err := urns.NewFromParts(scheme, path, parsedQuery, display)
+	if err != nil {
+		return
+	}
+
+	u.channel = channel
 	u.urn = urn
 }
 
